@@ -5,7 +5,7 @@
 set -u
 wt="$1"; demo="$2"; shift 2
 cd "$wt" || exit 2
-T="${T}_$(basename "$wt")"   # per-worktree scratch names: several verifications may run at once
+T="/tmp/verify_$(basename "$wt")"   # per-worktree scratch names: several verifications may run at once
 export CARGO_NET_OFFLINE=true RUST_BACKTRACE=0
 git diff > ${T}_cur.diff
 if diff -q ${T}_cur.diff MUTANT/patch.diff >/dev/null; then echo "patch_matches_worktree=yes"; else echo "patch_matches_worktree=NO"; fi
